@@ -242,6 +242,19 @@ def _always_returns(stmts: List[ast.stmt]) -> bool:
     return False
 
 
+def _single_returned_local(body: List[ast.stmt]) -> Optional[str]:
+    """name of the local that every return of the body returns (the body always returns), else None"""
+    rets = [n for s_ in body for n in _walk_stmts(s_) if isinstance(n, ast.Return)]
+    if not rets or not _always_returns(body):
+        return None
+    names = {n.value.id if isinstance(n.value, ast.Name) else None for n in rets}
+    if len(names) != 1 or None in names:
+        return None
+    nm = names.pop()
+    stored = any(isinstance(n, ast.Name) and n.id == nm and isinstance(n.ctx, ast.Store) for s_ in body for n in ast.walk(s_))
+    return nm if stored and len(rets) == 1 and isinstance(body[-1], ast.Return) else None
+
+
 def _pure_value(fn) -> Optional[ast.AST]:
     """the value of a helper that only computes and returns an expression, as an expression over its parameters"""
     if isinstance(fn, ast.Assign):          # name = lambda ...: expr
@@ -657,6 +670,13 @@ class Inliner:
                             body = body[1:]
                         if mode == "stmt":
                             new = _eliminate_returns(body, lambda v: ([ast.Expr(value=v)] if v is not None and not isinstance(v, ast.Constant) else []))
+                        elif mode == "assign" and len(st.targets) == 1 and isinstance(st.targets[0], ast.Name) and \
+                                _single_returned_local(body) is not None and \
+                                not any(isinstance(n_, ast.Name) and n_.id == st.targets[0].id for s_ in body for n_ in ast.walk(s_)):
+                            # `t = helper()` where the helper builds a local and returns it: the local *is* t (no alias is created)
+                            loc_ = _single_returned_local(body)
+                            body3 = [_Rename({loc_: st.targets[0].id}).visit(s_) for s_ in body]
+                            new = _eliminate_returns(body3, lambda v: [])
                         elif mode == "assign":
                             tg = st.targets
                             body2 = body if _always_returns(body) else body + [ast.Return(value=None)]
@@ -697,6 +717,28 @@ class Inliner:
     def known_has_function(self, modname, fn) -> bool:
         return True
 
+    def _drop_dead_helpers(self):
+        """new top-level helpers (methods / module functions) that are no longer referenced anywhere in the package after
+        inlining are removed: rules that enumerate all methods would otherwise judge their bodies out of context"""
+        refs: Dict[str, int] = {}
+        for mod in self.modules.values():
+            for n in ast.walk(mod.tree):
+                if isinstance(n, ast.Attribute):
+                    refs[n.attr] = refs.get(n.attr, 0) + 1
+                elif isinstance(n, ast.Name):
+                    refs[n.id] = refs.get(n.id, 0) + 1
+        for h in self.helpers.values():
+            if h.encl is not None or isinstance(h.node, ast.Assign):
+                continue
+            if refs.get(h.name, 0) > 0 or h.name.startswith("__"):
+                continue
+            container = h.cls.body if h.cls is not None else self.modules[h.modname].tree.body
+            for i_, s_ in enumerate(container):
+                if s_ is h.node:
+                    del container[i_]
+                    self.report.append(f"{h.modname}: new helper `{h.name}` fully inlined and removed")
+                    break
+
     def new_literal_loop(self, modname: str, fn, st: ast.For) -> bool:
         """a loop over a literal tuple is unrolled only if the reviewed version of the function had no such loop (the
         known-functions file records the number of literal-tuple loops per function)"""
@@ -706,12 +748,15 @@ class Inliner:
         return self.known_lit.get(key, 0) == 0
 
     def run(self):
+        self.leftover = []
         self._key_of = {}
         for modname, mod in self.modules.items():
             for key, node, cls, encl in function_keys(mod.tree, modname):
                 self._key_of[id(node)] = key
         for _ in range(MAX_ROUNDS):
             any_change = False
+            for h_ in self.helpers.values():
+                h_.value = _pure_value(h_.node if isinstance(h_.node, ast.Assign) else h_.fn)
             for modname, mod in self.modules.items():
                 for key, node, cls, encl in function_keys(mod.tree, modname):
                     if isinstance(node, ast.Assign):
@@ -721,9 +766,45 @@ class Inliner:
                         any_change = True
             if not any_change:
                 break
-        # recompute helper values after helpers were themselves expanded
+        self._drop_dead_helpers()
         for mod in self.modules.values():
             ast.fix_missing_locations(mod.tree)
+        # what could not be restored: reviewed functions that still call a new helper.  Rules cannot see through such a call;
+        # a violation reported inside such a function (or inside the helper) is not trustworthy and is turned into an
+        # analysis error by the report.
+        self.leftover: List[Tuple[str, int, int, str]] = []
+        for modname, mod in self.modules.items():
+            rel = getattr(mod, "relpath", modname)
+            for key, node, cls, encl in function_keys(mod.tree, modname):
+                if isinstance(node, ast.Assign) or key not in self.known:
+                    continue
+                chain = ([encl] if encl is not None else []) + [node]
+                names = set()
+                for c in ast.walk(node):
+                    if isinstance(c, ast.Call):
+                        r = self.resolve(c, modname, cls, chain)
+                        if r is not None and r[0].fn is not node:
+                            names.add(r[0].name)
+                            h = r[0]
+                            self.leftover.append((rel, getattr(h.fn, "lineno", 0), getattr(h.fn, "end_lineno", 0) or 0, f"new helper `{h.name}` could not be inlined"))
+                # local callables (nested def / lambda bound to a name) that the reviewed function did not have and that are
+                # still called: e.g. a nested function that came in with an inlined helper, or one that cannot be inlined
+                qual = key.split(":", 1)[1]
+                local_new = set()
+                for n_ in ast.walk(node):
+                    if n_ is node:
+                        continue
+                    if isinstance(n_, (ast.FunctionDef, ast.AsyncFunctionDef)) and f"{modname}:{qual}.{n_.name}" not in self.known:
+                        local_new.add(n_.name)
+                    elif isinstance(n_, ast.Assign) and len(n_.targets) == 1 and isinstance(n_.targets[0], ast.Name) and isinstance(n_.value, ast.Lambda) and \
+                            f"{modname}:{qual}.{n_.targets[0].id}" not in self.known:
+                        local_new.add(n_.targets[0].id)
+                for c in ast.walk(node):
+                    if isinstance(c, ast.Call) and isinstance(c.func, ast.Name) and c.func.id in local_new:
+                        names.add(c.func.id)
+                if names:
+                    self.leftover.append((rel, node.lineno, getattr(node, "end_lineno", node.lineno) or node.lineno,
+                                          f"`{key.split(':')[1]}` still calls the new helper(s) {sorted(names)} that could not be inlined"))
 
 
 def _count_uses(e: ast.AST, name: str) -> int:
@@ -814,6 +895,36 @@ def structure_statements(stmts: List[ast.stmt]) -> List[ast.stmt]:
                     nxt.value.test = R().visit(nxt.value.test)
                 i += 1
                 continue
+        # a, b = (x, y)  ->  a = x; b = y   (no element of the right side reads a name bound on the left)
+        if isinstance(st, ast.Assign) and len(st.targets) == 1 and isinstance(st.targets[0], (ast.Tuple, ast.List)) and isinstance(st.value, (ast.Tuple, ast.List)) and \
+                len(st.targets[0].elts) == len(st.value.elts) and not any(isinstance(x, ast.Starred) for x in st.targets[0].elts + st.value.elts):
+            bound = set()
+            for t_ in st.targets[0].elts:
+                bound |= _names_in(t_)
+            reads = set()
+            for v_ in st.value.elts:
+                reads |= _names_in(v_)
+            if not (bound & reads) and len(st.value.elts) >= 2:
+                parts = []
+                for t_, v_ in zip(st.targets[0].elts, st.value.elts):
+                    a_ = ast.Assign(targets=[t_], value=v_, lineno=st.lineno)
+                    ast.copy_location(a_, st)
+                    parts.append(a_)
+                stmts[i:i + 1] = parts
+                continue
+        # if <constant>: keep the live branch (after a helper was inlined with a constant flag argument)
+        if isinstance(st, ast.If) and isinstance(st.test, ast.Constant) and isinstance(st.test.value, (bool, int)):
+            live = st.body if st.test.value else st.orelse
+            stmts[i:i + 1] = live
+            continue
+        if isinstance(st, (ast.Assign, ast.Return, ast.Expr)) and st.value is not None:
+            class _CF(ast.NodeTransformer):
+                def visit_IfExp(self, node):
+                    node = self.generic_visit(node)
+                    if isinstance(node.test, ast.Constant) and isinstance(node.test.value, (bool, int)):
+                        return node.body if node.test.value else node.orelse
+                    return node
+            st.value = _CF().visit(st.value)
         if isinstance(st, ast.Assign) and isinstance(st.value, ast.IfExp):
             v = st.value
             a = ast.Assign(targets=copy.deepcopy(st.targets), value=v.body, lineno=st.lineno)
@@ -842,7 +953,12 @@ def structure_statements(stmts: List[ast.stmt]) -> List[ast.stmt]:
     return out
 
 
+LEFTOVER: List[Tuple[str, int, int, str]] = []
+
+
 def normalise(modules: Dict[str, "object"]) -> List[str]:
+    global LEFTOVER
+    LEFTOVER = []
     known = load_known()
     if known is None:
         return []
@@ -855,4 +971,5 @@ def normalise(modules: Dict[str, "object"]) -> List[str]:
                 if not isinstance(node, ast.Assign):
                     node.body = structure_statements(node.body)
             ast.fix_missing_locations(mod.tree)
-    return notes + sorted(set(inl.report))
+    LEFTOVER = sorted(set(getattr(inl, "leftover", [])))
+    return notes + sorted(set(inl.report)) + [f"NOT RESTORED {rel}:{a}-{b}: {why}" for rel, a, b, why in LEFTOVER]
